@@ -26,39 +26,40 @@ def jobs_for(cls, nr, nt, nsc, dirbc):
     lines = [("circle", a, idx(nr, nt, nsc, a, 0), [(a, b) for b in range(nt)]) for a in range(nsc)] + \
             [("radial", b, idx(nr, nt, nsc, nsc, b), [(a, b) for a in range(nsc, nr)]) for b in range(nt)]
     jobs = []
-    for (kind, li, start, nodes) in lines:
-        last_colour = (kind == "radial" and li % 2 == 1)
-        for mode in ([0, 1] if last_colour else [1]):
-            h = ["void harness(void) {", "  setup();", "  g_mode = %d; g_target_start = %d; g_target_seen = 0;" % (mode, start)]
-            h += ["  X0[%d] = nondet_real(); F0[%d] = nondet_real();" % (k, k) for k in range(N)]
-            if mode == 1:
-                # x0 is the exact discrete solution on the target line's rows: (A x0)[k] == f[k]
-                h += ["  x[%d] = X0[%d]; rhs[%d] = F0[%d]; result[%d] = nondet_real();" % (k, k, k, k, k) for k in range(N)]
-                h.append("  ResidualTake_computeResidual__impl();")
-                h += ["  __CPROVER_assume(result[%d] == 0);" % idx(nr, nt, nsc, a, b) for (a, b) in nodes]
-            h += ["  x[%d] = X0[%d]; rhs[%d] = F0[%d]; temp[%d] = nondet_real();" % (k, k, k, k, k) for k in range(N)]
-            h.append("  %s_%s__impl();" % (cls, cfg["sweep"]))
-            h.append("  __CPROVER_assert(g_target_seen, \"OBL:the_sweep_solves_the_target_line\");")
-            if mode == 0:
-                h += ["  XF[%d] = x[%d];" % (k, k) for k in range(N)]
-                h += ["  rhs[%d] = F0[%d]; result[%d] = nondet_real();" % (k, k, k) for k in range(N)]
-                h.append("  ResidualTake_computeResidual__impl();")
-                for (a, b) in nodes:
-                    if a == nr - 1:
-                        h.append("  __CPROVER_assert(XF[%d] == F0[%d], \"OBL:dirichlet_node_carries_boundary_data[node=(%d,%d)]\");" % (idx(nr, nt, nsc, a, b), idx(nr, nt, nsc, a, b), a, b))
-                    h.append("  __CPROVER_assert(result[%d] == 0, \"OBL:residual_vanishes_on_last_updated_colour[node=(%d,%d)]\");" % (idx(nr, nt, nsc, a, b), a, b))
-            h.append("  __CPROVER_assert(X0[0] != X0[0], \"COVER:reached_end\");")
-            h.append("}")
-            tag = "[%s,%s,%s%d,nr=%d,nt=%d,nsc=%d,DirBC=%d]" % (cls, "relax" if mode == 0 else "fixedpoint", kind, li, nr, nt, nsc, dirbc)
-            j = Job("C06." + tag, "\n".join(c + h), "R", unwind=max(N, 5 * nt) + 2, timeout=900,
-                    bounded="grid shape fixed %dx%d split %d DirBC=%d; all real data symbolic" % (nr, nt, nsc, dirbc),
-                    functions=["%s::%s" % (cls, m) for m in ("buildAscCircleSection", "buildAscRadialSection", "applyAscOrthoCircleSection",
-                                                              "applyAscOrthoRadialSection", "solveCircleSection", "solveRadialSection", cfg["sweep"])],
-                    covers={"COVER:reached_end"}, split=r"^OBL:(residual|exact|dirichlet)|^COVER:", split_chunk=6, split_timeout=300,
-                    skip_batch=(len(jobs) > 0),
-                    extra=["--max-field-sensitivity-array-size", "8192"])
-            j.rules, j.hashes = rules, hashes
-            jobs.append(j)
+    for (sweep, threads) in cfg["sweeps"]:
+     for (kind, li, start, nodes) in lines:
+         last_colour = (kind == "radial" and li % 2 == 1)
+         for mode in ([0, 1] if last_colour else [1]):
+             h = ["void harness(void) {", "  setup();", "  g_mode = %d; g_target_start = %d; g_target_seen = 0; verif_omp_max_threads = %d;" % (mode, start, threads)]
+             h += ["  X0[%d] = nondet_real(); F0[%d] = nondet_real();" % (k, k) for k in range(N)]
+             if mode == 1:
+                 # x0 is the exact discrete solution on the target line's rows: (A x0)[k] == f[k]
+                 h += ["  x[%d] = X0[%d]; rhs[%d] = F0[%d]; result[%d] = nondet_real();" % (k, k, k, k, k) for k in range(N)]
+                 h.append("  ResidualTake_computeResidual__impl();")
+                 h += ["  __CPROVER_assume(result[%d] == 0);" % idx(nr, nt, nsc, a, b) for (a, b) in nodes]
+             h += ["  x[%d] = X0[%d]; rhs[%d] = F0[%d]; temp[%d] = nondet_real();" % (k, k, k, k, k) for k in range(N)]
+             h.append("  %s_%s__impl();" % (cls, sweep))
+             h.append("  __CPROVER_assert(g_target_seen, \"OBL:the_sweep_solves_the_target_line\");")
+             if mode == 0:
+                 h += ["  XF[%d] = x[%d];" % (k, k) for k in range(N)]
+                 h += ["  rhs[%d] = F0[%d]; result[%d] = nondet_real();" % (k, k, k) for k in range(N)]
+                 h.append("  ResidualTake_computeResidual__impl();")
+                 for (a, b) in nodes:
+                     if a == nr - 1:
+                         h.append("  __CPROVER_assert(XF[%d] == F0[%d], \"OBL:dirichlet_node_carries_boundary_data[node=(%d,%d)]\");" % (idx(nr, nt, nsc, a, b), idx(nr, nt, nsc, a, b), a, b))
+                     h.append("  __CPROVER_assert(result[%d] == 0, \"OBL:residual_vanishes_on_last_updated_colour[node=(%d,%d)]\");" % (idx(nr, nt, nsc, a, b), a, b))
+             h.append("  __CPROVER_assert(X0[0] != X0[0], \"COVER:reached_end\");")
+             h.append("}")
+             tag = "[%s.%s,%s,%s%d,nr=%d,nt=%d,nsc=%d,DirBC=%d]" % (cls, sweep, "relax" if mode == 0 else "fixedpoint", kind, li, nr, nt, nsc, dirbc)
+             j = Job("C06." + tag, "\n".join(c + h), "R", unwind=max(N, 5 * nt) + 2, timeout=900,
+                     bounded="grid shape fixed %dx%d split %d DirBC=%d; all real data symbolic" % (nr, nt, nsc, dirbc),
+                     functions=["%s::%s" % (cls, m) for m in ("buildAscCircleSection", "buildAscRadialSection", "applyAscOrthoCircleSection",
+                                                               "applyAscOrthoRadialSection", "solveCircleSection", "solveRadialSection", sweep)],
+                     covers={"COVER:reached_end"}, split=r"^OBL:(residual|exact|dirichlet)|^COVER:", split_chunk=6, split_timeout=300,
+                     skip_batch=(len(jobs) > 0),
+                     extra=["--max-field-sensitivity-array-size", "8192"])
+             j.rules, j.hashes = rules, hashes
+             jobs.append(j)
     return jobs
 
 
